@@ -1,5 +1,6 @@
 import MithrilModel.Proto
 import MithrilModel.Registration
+import MithrilModel.RegLeader
 namespace Handlers.C07
 open Proto Registration
 
@@ -43,8 +44,69 @@ def registerReq (r : Req) : Option String := do
     | .ok (pid, st) => s!"ok {pid} {st}"
     | .error e => "err " ++ showErr e)
 
+/-! ### the aggregator's leader (`c07.history`) -/
+open RegLeader in
+def showVErr : RegLeader.VErr → String
+  | .reg e => showErr e
+  | .partyIdMissing => "partyIdMissing"
+
+open RegLeader in
+def showOut : RegLeader.Out → String
+  | .ok pid st => s!"ok {pid} {st}"
+  | .notOpened => "notOpened"
+  | .unexpectedEpoch => "unexpectedEpoch"
+  | .invalid e => "invalid:" ++ showVErr e
+  | .existing pid => s!"existing {pid}"
+  | .duplicateKey => "duplicateKey"
+
+def parseSd (v : Val) : Option (List (Nat × Nat)) :=
+  match v with
+  | .l es => es.mapM fun e =>
+    match e with
+    | .l [p, s] => do pure (← p.nat?, ← s.nat?)
+    | _ => none
+  | _ => none
+
+open RegLeader in
+def parseOp : Val → Option RegLeader.Op
+  | .l [.s "open", ep, sd] => do pure (.openRound (← ep.nat?) (← parseSd sd))
+  | .l [.s "close"] => some .closeRound
+  | .l [.s "chain", p] => do pure (.chain (← optNat p))
+  | .l [.s "reg", ep, claimed, hasOc, start, vk, hasSig, announced, ocOk, kesOk, popOk, pool] => do
+    pure (.reg { epoch := ← ep.nat?, claimed := ← optNat claimed, hasOpcert := (← hasOc.nat?) == 1, start := ← start.nat?,
+                 vk := ← vk.nat?, hasSig := (← hasSig.nat?) == 1, announced := ← optNat announced,
+                 opcertOk := (← ocOk.nat?) == 1, kesOk := ← kesOk.nats?, popOk := (← popOk.nat?) == 1, pool := ← optNat pool })
+  | _ => none
+
+def insRow (x : List Nat) : List (List Nat) → List (List Nat)
+  | [] => [x]
+  | y :: r => if decide (x ≤ y) then x :: y :: r else y :: insRow x r
+
+def showOptNat : Option Nat → String
+  | none => "none"
+  | some n => toString n
+
+/-- the code as it is: both repairs in (`fix:` verifier stores the verified evolutions, `fix:` leader
+rejects a key registered by another party of the round) -/
+def currentCfg (skip : Bool) : RegLeader.Cfg :=
+  { skip, storeVerifiedEvolutions := true, rejectForeignDuplicate := true }
+
+/-- `c07.history skip=0/1 ops=[…]` → outcomes `;`-joined ` | ` rows (epoch,pid,vk,stake,evol) sorted ` | ` recorded sorted -/
+def historyReq (r : Req) : Option String := do
+  let skip ← r.nat "skip"
+  let ops ← (← r.list "ops").mapM parseOp
+  let (s, outs) := RegLeader.run (currentCfg (skip == 1)) {} ops
+  let rows := (s.rows.map fun x => [x.epoch, x.pid, x.vk, x.stake, (match x.evol with | none => 0 | some e => e + 1)]).foldr insRow []
+  let showRow := fun (x : List Nat) => match x with
+    | [a, b, c, d, e] => s!"({a},{b},{c},{d},{if e == 0 then "none" else toString (e - 1)})"
+    | _ => "?"
+  let rec_ := (s.recorded.map fun x => [x]).foldr insRow []
+  pure (String.intercalate ";" (outs.map showOut) ++ " | " ++ String.intercalate "," (rows.map showRow) ++ " | " ++
+        String.intercalate "," (rec_.map fun x => toString (x.headD 0)))
+
 def handle (r : Req) : Option String :=
   match r.op with
+  | "c07.history" => historyReq r
   | "c07.register" => registerReq r
   | _ => none
 end Handlers.C07
